@@ -103,6 +103,7 @@ def structured_source(quick):
         ("for-huge-range", b"let mut s = 0\nfor i in 0..140737488355327 { s += 1 }\ns"), ("for-step-zero", b"for i in 0..10 step 0 { }\n1"),
         ("string-repeat-huge", b'needs std.string\nstring.repeat("ab", 100000000000)'), ("vec-reserve-huge", b"let v = Vec[1]\nv.reserve(100000000000)\n1"),
         ("open-paren-at-eof", b"("), ("open-call-at-eof", b"f("), ("open-bracket-at-eof", b"Array["), ("open-brace-at-eof", b"if true {"),
+        ("open-index-at-eof", b"a["), ("open-if-at-eof", b"let a = 1\nif "), ("operator-at-eof", b"1 +"), ("while-at-eof", b"while"),
         ("empty", b""), ("only-newlines", b"\n" * 10000), ("only-semicolons", b";" * 10000),
     ]
     return out
@@ -149,6 +150,7 @@ def structured_aasm(seeds):
         ("aasm-func-ref-oob", hd + b"  .constants\n    0: func @40\n  .code\n    0000: LoadK r0, 0\n    0001: Call r1, r0, 0\n    0002: Return r1\n"),
         ("aasm-func-ref-zero", hd + b"  .constants\n    0: func @0\n  .code\n    0000: LoadK r0, 0\n    0001: Return r0\n"),
         ("aasm-global-idx-huge", hd + b"  .globals\n    4000000000: \"x\"\n  .code\n    0000: Return0\n"),
+        ("aasm-global-idx-negative", hd + b"  .globals\n    -1: \"x\"\n  .code\n    0000: Return0\n"),
         ("aasm-upvalue-idx-huge", hd + b"  .upvalues\n    4000000000: local 0\n  .code\n    0000: Return0\n"),
         ("aasm-callglobal-end", hd + b"  .globals\n    0: \"f\"\n  .code\n    0000: CallGlobal r0, 0, 0\n"),
         ("aasm-registers-huge", b".function 0\n  .registers 99999\n  .code\n    0000: Return0\n"), ("aasm-arity-huge", b".function 0\n  .arity 99999\n  .code\n    0000: Return0\n"),
@@ -336,9 +338,9 @@ def input_class(kind, label, data):
     """decidable class of an input: the generator's label for structured inputs, a predicate for mutants / raw bytes"""
     if not label.startswith(("mut-", "raw", "corpus-")):
         base = re.sub(r"-\d+$", "", label)
-        return "open-delimiter-at-eof" if re.fullmatch(r"open-(paren|call|bracket)-at-eof", base) else base
-    if kind == "source" and data.rstrip().endswith((b"(", b"[")) and nesting_depth(data) < 150:
-        return "open-delimiter-at-eof"
+        return "expr-expected-at-eof" if re.fullmatch(r"open-(paren|call|bracket|index|if)-at-eof", base) else base
+    if kind == "source" and (data.rstrip().endswith((b"(", b"[")) or re.search(rb"(^|[^A-Za-z0-9_])if\s*$", data)) and nesting_depth(data) < 150:
+        return "expr-expected-at-eof"
     if kind == "source" and re.search(rb"(reserve|repeat)\([^)]*\d{9,}", data):
         return "huge-allocation-request"
     if kind == "source" and nesting_depth(data) >= 150:
